@@ -82,6 +82,7 @@ type Config struct {
 	LeReject      int                        // READ BINARY with Ne above this is refused with 6700 (0 = never)
 	ChunkFn       func(offset, want int) int // optional: how many bytes to return (1..want)
 	OpenLDS       bool                       // LDS files readable without secure messaging (no access control)
+	StrictAuthLe  bool                       // refuse INTERNAL AUTHENTICATE when Ne is smaller than the signature (default: Ne ignored)
 	SelectNeedsSM bool                       // SELECT of an LDS EF without SM answers 6982 (else only READ BINARY does)
 
 	// randomness of the chip: returns n bytes (drawn by the test's generator)
